@@ -54,8 +54,9 @@ enum Status {
     ///
     /// Stop execution early if breakpoint or `HALT` is reached.
     ///
-    /// Return address is necessary to support nested subroutine calls.
-    StepOver { return_addr: u16 },
+    /// Return address is necessary to support nested subroutine calls, and call depth to support
+    /// recursive ones (which reach the return address before the stepped-over call has returned).
+    StepOver { return_addr: u16, depth: u16 },
     /// Execute `count` instructions.
     ///
     /// Stop execution early if breakpoint or `HALT` is reached.
@@ -109,6 +110,15 @@ impl TryFrom<u16> for SignificantInstr {
             0xF if instr & 0xFF == 0x25 => Ok(SignificantInstr::Halt),
             _ => Err(()),
         }
+    }
+}
+
+/// Whether an instruction calls a subroutine: `JSR`/`JSRR`, or `CALL` (`0xD(stack) 0b11 ...`).
+fn is_call(instr: u16) -> bool {
+    match instr >> 12 {
+        0x4 => true,
+        0xD => (instr >> 10) & 0b11 == 0b11,
+        _ => false,
     }
 }
 
@@ -198,8 +208,8 @@ impl Debugger {
                     }
                 }
 
-                Status::StepOver { return_addr } => {
-                    if state.pc() == *return_addr {
+                Status::StepOver { return_addr, depth } => {
+                    if state.pc() == *return_addr && *depth == 0 {
                         // If subroutine was excecuted (for `JSR|JSRR|CALL` + `RET`|`RETS`)
                         // As opposed to a single instruction
                         if self.instruction_count > 1 {
@@ -212,6 +222,13 @@ impl Debugger {
                         }
                         self.status = Status::WaitForAction;
                         continue;
+                    }
+                    // Track the depth of the instruction about to be executed
+                    let next = state.mem(state.pc());
+                    if is_call(next) {
+                        *depth = depth.saturating_add(1);
+                    } else if SignificantInstr::try_from(next) == Ok(SignificantInstr::Return) {
+                        *depth = depth.saturating_sub(1);
                     }
                     return Action::Proceed;
                 }
@@ -356,8 +373,15 @@ impl Debugger {
 
             Command::StepOver => {
                 Self::check_halt(instr)?;
-                self.status = Status::StepOver {
-                    return_addr: state.pc().wrapping_add(1),
+                // Only a call is stepped *over*: anything else (including a taken branch, which
+                // may never arrive at the following address) is a single instruction
+                self.status = if is_call(state.mem(state.pc())) {
+                    Status::StepOver {
+                        return_addr: state.pc().wrapping_add(1),
+                        depth: 0,
+                    }
+                } else {
+                    Status::StepInto { count: 0 }
                 };
                 self.should_echo_pc = true;
             }
